@@ -35,27 +35,35 @@ package service
 //@   ensures[end-untouched] its.datatypeDoc.Sseq.End == old(its.datatypeDoc.Sseq.End)
 //@   modifies PushPullHandler.pushingOperations, model.CheckPoint.Sseq, model.CheckPoint.Cseq, schema.OperationDoc.*, errors.singleOrdaError.Code
 
-// pullOperations: the reply carries the stored operations after the client's checkpoint and the
+// pullOperations: the reply carries the stored operations after the request's checkpoint and the
 // new checkpoint is the end of the log including what this request appends (C05, C06).
 //@ func (*PushPullHandler).pullOperations
 //@   mode wrap
-//@   props C05 C06
+//@   props C05 C06 C07
 //@   requires handlerWF(its) && its.currentCP != nil && its.datatypeDoc != nil && its.resPushPullPack != nil && its.gotPushPullPack.CheckPoint != nil
+//@   requires[log-invariant] its.datatypeDoc.Sseq.End == G.stored && G.stored < 4611686018427387904 && len(its.pushingOperations) < 1073741824 && its.gotPushPullPack.CheckPoint.Sseq < 4611686018427387904
+//@   requires[after-push] !its.isReadOnly ==> its.currentCP.Sseq == its.datatypeDoc.Sseq.End + len(its.pushingOperations)
+//@   requires[own-checkpoint-object] its.currentCP != its.gotPushPullPack.CheckPoint
 //@   ensures[volatile-pulls-nothing] its.clientDoc.Type == model.ClientType_VOLATILE ==> result == nil && its.currentCP.Sseq == old(its.currentCP.Sseq) && len(its.resPushPullPack.Operations) == old(len(its.resPushPullPack.Operations))
-//@   ensures[cp-after-last-op] result == nil && len(its.resPushPullPack.Operations) > old(len(its.resPushPullPack.Operations)) ==> true
+//@   ensures[pulls-all-after-request-checkpoint] result == nil && its.clientDoc.Type != model.ClientType_VOLATILE && its.datatypeDoc.Sseq.Begin <= its.gotPushPullPack.CheckPoint.Sseq + 1 && !its.gotOption.HasSnapshotBit() ==> len(its.resPushPullPack.Operations) == (its.gotPushPullPack.CheckPoint.Sseq < G.stored ? G.stored - its.gotPushPullPack.CheckPoint.Sseq : 0)
+//@   ensures[pulled-in-log-order] result == nil && its.clientDoc.Type != model.ClientType_VOLATILE && its.datatypeDoc.Sseq.Begin <= its.gotPushPullPack.CheckPoint.Sseq + 1 && !its.gotOption.HasSnapshotBit() ==> (forall i int :: 0 <= i && i < len(its.resPushPullPack.Operations) ==> its.resPushPullPack.Operations[i].$sseq == its.gotPushPullPack.CheckPoint.Sseq + 1 + i)
+//@   ensures[checkpoint-is-new-end] result == nil && !its.isReadOnly ==> its.currentCP.Sseq == G.stored + len(its.pushingOperations)
 //@   ensures[cseq-untouched] its.currentCP.Cseq == old(its.currentCP.Cseq)
-//@   modifies model.CheckPoint.Sseq, model.PushPullPack.Operations, errors.singleOrdaError.Code
+//@   ensures[request-untouched] its.gotPushPullPack.CheckPoint.Sseq == old(its.gotPushPullPack.CheckPoint.Sseq)
+//@   modifies model.CheckPoint.Sseq, model.PushPullPack.Operations, errors.singleOrdaError.Code, model.Operation.$sseq
 
 // commitToMongoDB: the recorded end of the log and the reply's checkpoint are the handler's
-// current checkpoint; operations are inserted before the datatype document is updated.
+// current checkpoint; operations are stored BEFORE the datatype document that acknowledges them.
 //@ func (*PushPullHandler).commitToMongoDB
 //@   mode wrap
 //@   props C06 C05 C08
 //@   requires handlerWF(its) && its.currentCP != nil && its.datatypeDoc != nil && its.resPushPullPack != nil
+//@   requires[log-invariant] its.currentCP.Sseq <= G.stored + len(its.pushingOperations)
 //@   ensures[end-is-checkpoint] its.datatypeDoc.Sseq.End == its.currentCP.Sseq
 //@   ensures[reply-checkpoint]  its.resPushPullPack.CheckPoint == its.currentCP
 //@   ensures[checkpoint-untouched] its.currentCP.Sseq == old(its.currentCP.Sseq) && its.currentCP.Cseq == old(its.currentCP.Cseq)
-//@   modifies schema.DatatypeDoc.UpdatedDatatypeDoc/Sseq/End, model.PushPullPack.CheckPoint, schema.SubscribedClientDoc.At, schema.DatatypeDoc.UpdatedDatatypeDoc/UpdatedAt, errors.singleOrdaError.Code
+//@   ensures[stored-on-success] result == nil ==> G.stored == old(G.stored) + len(its.pushingOperations)
+//@   modifies schema.DatatypeDoc.UpdatedDatatypeDoc/Sseq/End, model.PushPullPack.CheckPoint, schema.SubscribedClientDoc.At, schema.DatatypeDoc.UpdatedDatatypeDoc/UpdatedAt, errors.singleOrdaError.Code, G:stored
 
 // ---------------------------------------------------------------------------------------
 // entry modes: create / subscribe / subscribe-or-create (C13), isolation (C17)
